@@ -63,6 +63,35 @@ func VerifNewController(opts Opts, allPodLister v1lister.PodLister, allNodeListe
 	}, nil
 }
 
+// VerifNewControllerReal builds the Controller with the real NewController (informer-backed client over
+// opts.K8SClient, provider, per-group state), stops its informers at once and then substitutes listers
+// over the caller-supplied listings, built by the same lister constructors. Slower than
+// VerifNewController (it waits for the informer caches to sync) but nothing of NewController is repeated
+// here, so a change to NewController itself is seen by the harness.
+func VerifNewControllerReal(opts Opts, allPodLister v1lister.PodLister, allNodeLister v1lister.NodeLister) (*Controller, error) {
+	stop := make(chan struct{})
+	c, err := NewController(opts, stop)
+	close(stop)
+	if err != nil {
+		return nil, err
+	}
+	for _, ng := range opts.NodeGroups {
+		var l *NodeGroupLister
+		if ng.Name == DefaultNodeGroup {
+			l = NewDefaultNodeGroupLister(allPodLister, allNodeLister, ng)
+		} else {
+			l = NewNodeGroupLister(allPodLister, allNodeLister, ng)
+		}
+		c.Client.Listers[ng.Name] = l
+		if st, ok := c.nodeGroups[ng.Name]; ok {
+			st.NodeGroupLister = l
+		}
+	}
+	c.Client.allPodLister = allPodLister
+	c.Client.allNodeLister = allNodeLister
+	return c, nil
+}
+
 // VerifShiftClock moves every remembered instant d into the past, which is how the harness
 // advances virtual time for the parts of the controller that read the real clock.
 func (c *Controller) VerifShiftClock(d time.Duration) {
